@@ -131,6 +131,53 @@ func VxH19comb() {
 	vxAssert(vxProductOK(names, inputs, rows), "C19.comb.cartesian-product-aligned-each-once")
 }
 
+// VxH19joint: the out-ports of a combinator feed ONE downstream process that consumes
+// them in lock-step (the usual way combinators are used); more rows than the buffers hold.
+func VxH19joint() {
+	file := vxGet("file") == 1
+	vxCmdFree(false, false)
+	wf := vxWF19(1)
+	la := vxChoice("len.a", 3) + 1
+	lb := vxChoice("len.b", 3) + 1
+	var as, bs []string
+	for i := 0; i < la; i++ {
+		as = append(as, "a"+string(rune('0'+i)))
+	}
+	for i := 0; i < lb; i++ {
+		bs = append(bs, "b"+string(rune('0'+i)))
+	}
+	vxMapOrder("Run,combine")
+	if file {
+		for _, f := range append(append([]string{}, as...), bs...) {
+			vxFSPut(f, vxFile, 1)
+		}
+		comb := NewFileCombinator(wf, "comb")
+		comb.In("a").From(NewFileSource(wf, "sa", as...).Out())
+		comb.In("b").From(NewFileSource(wf, "sb", bs...).Out())
+		p := wf.NewProc("use", "vcmd r:{i:a} r:{i:b} w:{o:out}")
+		p.SetOut("out", "{i:a}.{i:b}.out")
+		p.In("a").From(comb.Out("a"))
+		p.In("b").From(comb.Out("b"))
+	} else {
+		comb := NewParamCombinator(wf, "comb")
+		comb.InParam("a").From(NewParamSource(wf, "sa", as...).Out())
+		comb.InParam("b").From(NewParamSource(wf, "sb", bs...).Out())
+		p := wf.NewProc("use", "vcmd w:{o:out} # {p:a} {p:b}")
+		p.SetOut("out", "{p:a}.{p:b}.out")
+		p.InParam("a").From(comb.OutParam("a"))
+		p.InParam("b").From(comb.OutParam("b"))
+	}
+	kind := vxRun(func() { wf.Run() })
+	vxAssert(kind == "returned", "C19.joint.run-returns")
+	vxReach("ran")
+	vxAssert(vxInvCount() == la*lb, "C19.joint.one-task-per-combination")
+	for _, a := range as {
+		for _, b := range bs {
+			vxAssert(vxFSKind(a+"."+b+".out") == vxFile, "C19.joint.every-combination-processed")
+		}
+	}
+}
+
 // VxH19sel: IPSelectorSync forwards exactly the aligned tuples whose members all satisfy
 // the predicate, whole and in order.
 func VxH19sel() {
@@ -181,9 +228,15 @@ func VxH19split() {
 	for i := 0; i < n; i++ {
 		lines = append(lines, vxShape(vxStr("line"+string(rune('0'+i)), 2, vxClassName), ""))
 	}
-	vxFSPutLines("in.txt", lines)
+	// the input file: in the working directory, in a sub-directory, above it, absolute
+	inps := []string{"in.txt", "d/in.txt", "../up/in.txt", "/abs/in.txt"}
+	inp := inps[vxChoice("inpath", len(inps))]
+	vxFSMkdirAll("d")
+	vxFSMkdirAll("../up")
+	vxFSMkdirAll("/abs")
+	vxFSPutLines(inp, lines)
 	per := vxConcrete(vxInt("per", 1, 3))
-	src := NewFileSource(wf, "src", "in.txt")
+	src := NewFileSource(wf, "src", inp)
 	sp := NewFileSplitter(wf, "split", per)
 	sp.InFile().From(src.Out())
 	rec := vxNewRecorder(wf, "rec")
@@ -193,7 +246,8 @@ func VxH19split() {
 	vxReach("ran")
 	got := []string{}
 	for i, part := range rec.got {
-		vxAssert(part == "in.txt.split_"+string(rune('1'+i)), "C19.split.parts-in-order")
+		vxAssert(part == inp+".split_"+string(rune('1'+i)), "C19.split.parts-in-order")
+		vxAssert(vxFSKind(part) == vxFile, "C19.split.part-exists")
 		pl := vxFSLines(part)
 		vxAssert(len(pl) <= per, "C19.split.no-part-longer-than-limit")
 		vxAssert(!vxFSHasPartialLine(part), "C19.split.whole-lines")
